@@ -109,78 +109,132 @@ pub fn scenario_public_package_from_commitments<C: Suite>(rng: &mut TestRng, p: 
     Ok(())
 }
 
-/// Delivery choices for the slot of sender X at participant `me`.
+/// Delivery choices for the slots of one participant `me`.  One, several (two, three, an even number, all) or ALL sender slots
+/// deviate from the honest delivery, each with its own (round-one, round-two) content; the concurrent run B may have another
+/// threshold than run A.  "Everything from run B" is the delivery in which `me` (executing run A) is fed run B's round-one
+/// packages and the matching shares in every slot.
 pub fn scenario_network_mixes_runs<C: Suite>(rng: &mut TestRng, p: &Params, notes: &mut Notes) -> Verdict {
     let ids = make_ids::<C>(&p.ids)?;
-    // run A is the one `me` takes part in; run B is concurrent, possibly with another threshold
-    let t_b = match rng.below(4) {
-        0 if p.t < p.n => p.t + 1,
-        1 if p.t > 2 => p.t - 1,
-        _ => p.t,
+    let shape = ["one-slot", "one-slot", "several-slots", "several-slots", "several-slots", "everything-from-run-B", "everything-from-run-B"][rng.below(7)];
+    // run A is the one `me` takes part in; run B is concurrent, possibly with another threshold (same n)
+    let other_threshold = if shape == "everything-from-run-B" { 70 } else { 50 };
+    let t_b = if rng.chance(other_threshold) {
+        match rng.below(2) {
+            0 if p.t < p.n => p.t + 1,
+            _ if p.t > 2 => p.t - 1,
+            _ if p.t < p.n => p.t + 1,
+            _ => p.t,
+        }
+    } else {
+        p.t
     };
     notes.insert("threshold_of_concurrent_run".into(), json!(t_b));
+    notes.insert("delivery_shape".into(), json!(shape));
     let a = dkg_rounds::<C>(rng, &ids, p.n, p.t, false)?;
     dkg_finish::<C>(&a, false)?;
     let b = dkg_rounds::<C>(rng, &ids, p.n, t_b, false)?;
-    let mi = rng.below(ids.len());
-    let mut xi = rng.below(ids.len() - 1);
-    if xi >= mi {
-        xi += 1;
-    }
-    let (me, x) = match (ids.get(mi), ids.get(xi)) {
-        (Some(a), Some(b)) => (*a, *b),
-        _ => return skip("internal"),
+    // the receiver: anybody; the lowest and the highest identifier are over-represented (first / last entry of every map)
+    let mut sorted = ids.clone();
+    sorted.sort();
+    let me = match rng.below(10) {
+        0..=2 => sorted.first().copied(),
+        3..=4 => sorted.last().copied(),
+        _ => ids.get(rng.below(ids.len())).copied(),
     };
-    let third = ids.iter().find(|i| **i != me && **i != x).copied();
+    let me = match me {
+        Some(m) => m,
+        None => return skip("internal"),
+    };
+    let others: Vec<Id<C>> = sorted.iter().filter(|i| **i != me).copied().collect();
     notes.insert("participant_hex".into(), json!(id_hex::<C>(&me)));
-    notes.insert("sender_hex".into(), json!(id_hex::<C>(&x)));
-    // rank of the sender among the other senders (matters for "first t slots only" shortcuts)
-    let mut others: Vec<Id<C>> = ids.iter().filter(|i| **i != me).copied().collect();
-    others.sort();
-    notes.insert("sender_rank_among_peers".into(), json!(others.iter().position(|i| *i == x)));
+    notes.insert("participant_rank".into(), json!(sorted.iter().position(|i| *i == me)));
+
+    // which sender slots deviate
+    let k = match shape {
+        "one-slot" => 1,
+        "everything-from-run-B" => others.len(),
+        _ => match rng.below(6) {
+            0 | 1 | 2 => 2,
+            3 => 3,
+            4 => 2 * rng.range(1, (others.len() / 2).max(1)),
+            _ => others.len(),
+        },
+    }
+    .min(others.len())
+    .max(1);
+    let chosen: Vec<Id<C>> = rng.subset(others.len(), k).iter().filter_map(|i| others.get(*i)).copied().collect();
 
     let r1_choices = ["run-A", "run-B"];
     let r2_choices = ["run-A-to-me", "run-B-to-me", "run-A-to-someone-else", "run-B-to-someone-else", "nothing"];
-    let r1c = r1_choices[rng.below(2)];
-    let mut r2c = r2_choices[rng.below(5)];
-    if third.is_none() && r2c.ends_with("someone-else") {
-        r2c = "nothing";
-    }
-    if r1c == "run-A" && r2c == "run-A-to-me" {
-        // that is the honest delivery; make it interesting
-        r2c = if rng.chance(50) { "run-B-to-me" } else { "nothing" };
-    }
-    notes.insert("round_one_slot".into(), json!(r1c));
-    notes.insert("round_two_slot".into(), json!(r2c));
-
+    // several slots: the same deviation everywhere (50 %) or an independent one per slot
+    let uniform = rng.chance(50);
+    let common = (r1_choices[rng.below(2)], r2_choices[rng.below(5)]);
     let mut r1 = a.r1_for(&me);
     let mut r2 = a.r2_for(&me);
-    if r1c == "run-B" {
-        match b.r1_pkg.get(&x) {
-            Some(pk) => {
-                r1.insert(x, pk.clone());
+    let mut all_match = true;
+    let mut log = Vec::new();
+    for (j, x) in chosen.iter().enumerate() {
+        let (mut r1c, mut r2c) = if shape == "everything-from-run-B" {
+            ("run-B", "run-B-to-me")
+        } else if uniform {
+            common
+        } else {
+            (r1_choices[rng.below(2)], r2_choices[rng.below(5)])
+        };
+        // a third party whose share can be delivered instead
+        let third: Option<Id<C>> = {
+            let cands: Vec<Id<C>> = ids.iter().filter(|i| **i != me && *i != x).copied().collect();
+            cands.get(rng.below(cands.len().max(1))).copied()
+        };
+        if third.is_none() && r2c.ends_with("someone-else") {
+            r2c = "nothing";
+        }
+        if r1c == "run-A" && r2c == "run-A-to-me" {
+            // that is the honest delivery; make it interesting
+            r2c = if rng.chance(50) { "run-B-to-me" } else { "nothing" };
+        }
+        if shape == "everything-from-run-B" && j > 0 && rng.chance(10) {
+            // ... with an occasional slot that is not even consistent with run B
+            r2c = ["run-A-to-me", "run-B-to-someone-else", "nothing"][rng.below(3)];
+            if third.is_none() && r2c.ends_with("someone-else") {
+                r2c = "nothing";
             }
-            None => return skip("internal"),
         }
+        if shape == "everything-from-run-B" {
+            r1c = "run-B";
+        }
+        if r1c == "run-B" {
+            match b.r1_pkg.get(x) {
+                Some(pk) => {
+                    r1.insert(*x, pk.clone());
+                }
+                None => return skip("internal"),
+            }
+        }
+        let pick = |run: &DkgRun<C>, to: &Id<C>| run.r2_out.get(x).and_then(|m| m.get(to)).cloned();
+        let delivered = match r2c {
+            "run-A-to-me" => pick(&a, &me),
+            "run-B-to-me" => pick(&b, &me),
+            "run-A-to-someone-else" => third.and_then(|t| pick(&a, &t)),
+            "run-B-to-someone-else" => third.and_then(|t| pick(&b, &t)),
+            _ => None,
+        };
+        match delivered {
+            Some(pk) => {
+                r2.insert(*x, pk);
+            }
+            None => {
+                r2.remove(x);
+            }
+        }
+        // the share is acceptable iff it is X's share for me from the run whose round-one package is filed
+        let share_matches = (r1c == "run-A" && r2c == "run-A-to-me") || (r1c == "run-B" && r2c == "run-B-to-me");
+        all_match &= share_matches;
+        log.push(json!({"sender": id_hex::<C>(x), "sender_rank_among_peers": others.iter().position(|i| i == x), "round_one_slot": r1c, "round_two_slot": r2c}));
     }
-    let pick = |run: &DkgRun<C>, to: &Id<C>| run.r2_out.get(&x).and_then(|m| m.get(to)).cloned();
-    let delivered = match r2c {
-        "run-A-to-me" => pick(&a, &me),
-        "run-B-to-me" => pick(&b, &me),
-        "run-A-to-someone-else" => third.and_then(|t| pick(&a, &t)),
-        "run-B-to-someone-else" => third.and_then(|t| pick(&b, &t)),
-        _ => None,
-    };
-    match delivered {
-        Some(pk) => {
-            r2.insert(x, pk);
-        }
-        None => {
-            r2.remove(&x);
-        }
-    }
-    // the share is acceptable iff it is X's share for me from the run whose round-one package is filed
-    let share_matches = (r1c == "run-A" && r2c == "run-A-to-me") || (r1c == "run-B" && r2c == "run-B-to-me");
+    notes.insert("deviating_slots".into(), json!(log.len()));
+    let slots = log.iter().map(|l| format!("{} / {}", l["round_one_slot"].as_str().unwrap_or("?"), l["round_two_slot"].as_str().unwrap_or("?"))).collect::<Vec<_>>().join("; ");
+    notes.insert("slots".into(), json!(log));
 
     let secret = match a.r1_secret.get(&me) {
         Some(s) => s.clone(),
@@ -194,12 +248,12 @@ pub fn scenario_network_mixes_runs<C: Suite>(rng: &mut TestRng, p: &Params, note
         Err(_) => Ok(()),
         Ok((kp, pkp)) => {
             check(
-                share_matches,
-                &format!("part3 accepts a round-two share only if it was addressed to this recipient and belongs to the round-one contribution filed for the same sender (slot: {r1c} / {r2c})"),
+                all_match,
+                &format!("part3 accepts a round-two share only if it was addressed to this recipient and belongs to the round-one contribution filed for the same sender ({} deviating slot(s): {slots})", log.len()),
                 "Err(..)",
                 "Ok(key material)",
             )?;
-            key_package_consistent::<C>(&kp, &pkp, &me, p.t, &format!("key material completed with slot contents {r1c} / {r2c}"))
+            key_package_consistent::<C>(&kp, &pkp, &me, p.t, &format!("key material completed with slot contents {slots}"))
         }
     }
 }
